@@ -279,6 +279,9 @@ pub struct Ctx {
     /// variable nodes registered as ranging over [-1,1] (the assumption itself is a PC conjunct)
     pub unit_box: std::collections::HashSet<u32>,
     alin_memo: RefCell<HashMap<u32, std::rc::Rc<ALin>>>,
+    /// older generation of the ALin memo (two-generation cache: entries that are still being used survive a rotation)
+    alin_old: RefCell<HashMap<u32, std::rc::Rc<ALin>>>,
+    alin_weight: std::cell::Cell<usize>,
     poly_memo: RefCell<HashMap<u32, Option<std::rc::Rc<Poly>>>>,
     rat_memo: RefCell<HashMap<u32, Option<(std::rc::Rc<Poly>, std::rc::Rc<Poly>)>>>,
     pub n_rat_decided: std::cell::Cell<u64>,
@@ -401,7 +404,7 @@ impl Ctx {
             solver: Solver::new(timeout_ms), mode: Mode::Symbolic, exact_inputs: HashMap::new(), exact_default: BigRational::zero(),
             var_names: vec![], var_ids: HashMap::new(),
             pc: vec![], decisions: vec![], prefix: vec![], pending: vec![], trace: vec![], cache: HashMap::new(),
-            stats: PathStats::default(), violations: vec![], max_decisions: 400, check_obligations: true, approx: false, n_inputs: 0, branch_nl_timeout_ms: timeout_ms, deadline: None, pc_smt: vec![], levels: vec![], solver_epoch: 0, lin_memo: RefCell::new(HashMap::new()), n_lin_decided: std::cell::Cell::new(0), unit_box: Default::default(), alin_memo: RefCell::new(HashMap::new()), poly_memo: RefCell::new(HashMap::new()), n_poly_decided: std::cell::Cell::new(0), rat_memo: RefCell::new(HashMap::new()), n_rat_decided: std::cell::Cell::new(0), rat_ok: std::cell::Cell::new(false), box_seq: 0, crosscheck_every: 0, ob_seq: 0, crosscheck: (0, 0, 0, vec![]), concolic: None, concretised: false, fval_memo: RefCell::new(HashMap::new()),
+            stats: PathStats::default(), violations: vec![], max_decisions: 400, check_obligations: true, approx: false, n_inputs: 0, branch_nl_timeout_ms: timeout_ms, deadline: None, pc_smt: vec![], levels: vec![], solver_epoch: 0, lin_memo: RefCell::new(HashMap::new()), n_lin_decided: std::cell::Cell::new(0), unit_box: Default::default(), alin_memo: RefCell::new(HashMap::new()), alin_old: RefCell::new(HashMap::new()), alin_weight: std::cell::Cell::new(0), poly_memo: RefCell::new(HashMap::new()), n_poly_decided: std::cell::Cell::new(0), rat_memo: RefCell::new(HashMap::new()), n_rat_decided: std::cell::Cell::new(0), rat_ok: std::cell::Cell::new(false), box_seq: 0, crosscheck_every: 0, ob_seq: 0, crosscheck: (0, 0, 0, vec![]), concolic: None, concretised: false, fval_memo: RefCell::new(HashMap::new()),
         }
     }
     pub fn begin_path(&mut self, prefix: Vec<u8>) {
@@ -665,6 +668,8 @@ impl Ctx {
     /// approximate linear normal form with rigorous error bounds (memoised)
     pub fn alin(&self, id: u32) -> std::rc::Rc<ALin> {
         if let Some(l) = self.alin_memo.borrow().get(&id) { return l.clone(); }
+        let promoted = self.alin_old.borrow_mut().remove(&id);
+        if let Some(l) = promoted { self.alin_insert(id, l.clone()); return l; }
         let atom = |id: u32| ALin { c0: BigInt::zero(), t: vec![(id, BigInt::one() << AGRID)], err: BigInt::zero() };
         let l = match &self.nodes[id as usize] {
             Node::Const(r) => ALin::konst(r),
@@ -676,10 +681,19 @@ impl Ctx {
             _ => atom(id),
         };
         let l = std::rc::Rc::new(l);
-        let mut m = self.alin_memo.borrow_mut();
-        if m.len() > 1600 { let keep_from = id.saturating_sub(800); m.retain(|k, _| *k >= keep_from); }
-        m.insert(id, l.clone());
+        self.alin_insert(id, l.clone());
         l
+    }
+    /// two-generation memo bounded by the total number of stored coefficients (each a ~2600-bit integer): when the young generation
+    /// is full it becomes the old one; an entry of the old generation that is used again is promoted. A long recursion that looks back
+    /// a whole window (CyberCycle(128)) keeps what it needs, whatever the node ids are.
+    fn alin_insert(&self, id: u32, l: std::rc::Rc<ALin>) {
+        const YOUNG_CAP: usize = 200_000;
+        let w = self.alin_weight.get() + l.t.len() + 1;
+        let mut m = self.alin_memo.borrow_mut();
+        if w > YOUNG_CAP { let young = std::mem::take(&mut *m); *self.alin_old.borrow_mut() = young; self.alin_weight.set(l.t.len() + 1); }
+        else { self.alin_weight.set(w); }
+        m.insert(id, l);
     }
     /// linear normal form (memoised; the memo is dropped when it grows large)
     pub fn lin(&self, id: u32) -> std::rc::Rc<Lin> {
